@@ -143,12 +143,14 @@ def run(tier: str) -> int:
                                   f"a YAML rewrite that loads to the same configuration changes {idk or which}",
                                   dict(pub, rewritten_yaml=txt, before=base["payload"]["identity"], after=p2["identity"]))
         if has_sweep:
-            nodes3 = idgen.rewrite_expressions(nodes, rnd)
-            stats["expr_rewrites"] += 1
-            p3 = idgen.real_payload(nodes3)
-            if p3 != base["payload"]:
-                rep.add_violation("operand-reordering-changes-identity", "re-ordering + / * operands of a sweep expression changes the inspection payload",
-                                  dict(pub, rewritten=nodes3, before=base["payload"]["identity"], after=p3["identity"]))
+            for k in range(5):
+                nodes3 = idgen.rewrite_expressions(nodes, rnd, inner_only=(k % 2 == 1))
+                stats["expr_rewrites"] += 1
+                p3 = idgen.real_payload(nodes3)
+                if p3 != base["payload"]:
+                    rep.add_violation("operand-reordering-changes-identity:" + ("inner" if k % 2 else "any"),
+                                      "re-ordering + / * operands of a sweep expression changes the inspection payload",
+                                      dict(pub, rewritten=nodes3, before=base["payload"]["identity"], after=p3["identity"]))
         # -------- history ------------------------------------------------------------------------------------
         if i % 5 == 0:
             for other in rnd.sample(configs, k=min(3, len(configs))):
